@@ -28,6 +28,13 @@ Parts
   navigate-queries queries whose keys / values carry percent-encoded query delimiters ('k%3D1=v', '%26', 'x%2By=%3D'; one
                   and two pairs, with / without '='), as the reference's query and as the base's (inherited or dropped)
   navigate-self   base.navigate(base): the base object itself as the (absolute) reference, parsed and after normalize()
+  navigate-history every case (references of <= history_maxseg segments, a few chains, references with their own scheme
+                  and host, normalize twice) as the LAST step of a history of other URLs handled by the same process: URLs of
+                  the same scheme with an authority (other hosts, ports, userinfo, paths), without one (rooted, rootless,
+                  empty), both, URLs of other schemes plus register_scheme() of unrelated names, parses / navigations that
+                  raise, the very same resolution done before with its result (and reference object) changed by the
+                  caller, and one base object that has already been navigated from.  Victims: bases with and without authority of a scheme no other shard uses (so what the process
+                  saw first of that scheme is controlled) and of registered schemes.  Oracle: the RFC target, as always
   navigate-long   directed (not exhaustive): references and base paths of 15 .. 1025 repeated units
   absolute        references that carry their own scheme and host (replace the base entirely)
   chain           base.navigate(r1).navigate(r2) against the reference applied step by step
@@ -1074,6 +1081,228 @@ def shard_normalize(arg, t, g):
 
 
 # ----------------------------------------------------------------------------------------------------
+# History: a resolution must not depend on which other URLs the process has handled before
+
+HISTORY_KINDS = ('none', 'authority-siblings', 'authority-less-siblings', 'mixed-siblings', 'other-schemes',
+                 'failed-calls', 'same-case-before', 'base-object-reused')
+# victims; {s} is a scheme used by no other shard (so "first URL of that scheme seen by the process" is controlled);
+# the second field says whether the two hostless classes of the navigate-hostless part are left out
+HISTORY_CUSTOM_VICTIMS = (('{s}:/a/b/c', True), ('{s}:/', True), ('{s}:a/b', True), ('{s}:a', True),
+                          ('{s}://h/p/q', False), ('{s}://h', False), ('{s}://u:pw@h:8080/b/c/?q#f', False))
+HISTORY_REGISTERED_VICTIMS = (('http://a/b/c', False), ('http://a', False), ('http://u:pw@a:8080/b/c?q#f', False),
+                              ('https://a/b/c/?q', False), ('file:///a/b', True), ('urn:a', True), ('mailto:x@y', True))
+HISTORY_AUTHORITY_SIBLINGS = ('{s}://other:99/artifacts', '{s}://h/p/q', '{s}://h', '{s}://u:pw@h2/', '{s}://[::1]:8080/x/y?q#f',
+                              '{s}://a/b/c', '{s}://a:8080/../b/./c/')
+HISTORY_AUTHORITY_LESS_SIBLINGS = ('{s}:/x/y', '{s}:/', '{s}:x/y', '{s}:x', '{s}:', '{s}:?q', '{s}:///x/y', '{s}:/a/b/c', '{s}:a/b')
+HISTORY_OTHER_SCHEMES = ('http://a/b/c', 'http:/a/b', 'http:a', 'file:///a/b', 'file:/a/b', 'urn:a', 'zq://h/p', 'zq:/p',
+                         'zq:p', 'git+ssh://u@h/p', '//h/p', '/p', 'p', '')
+HISTORY_FAILING = ('{s}://[::1/p', '{s}://h:port/p', '{s}://[zz]/p', '{s}://h:1:2/', 'http://[::1/p')
+HISTORY_REFS = ('../x/./y?y#s', '/x', '?y', '#s', '', 'x/', '..')
+_REG_COUNT = [0]
+
+
+def _scramble(u):
+    """What the owner of a URL object may do with it afterwards."""
+    _mutate_result(u)
+    u.scheme, u.host, u.port, u.username = 'zz', 'zz.example', 99, 'zz'
+
+
+def _use(URL, text):
+    """An unrelated URL is parsed and used (every step on its own, exceptions swallowed as a caller would)."""
+    steps = (lambda u: u.to_text(), lambda u: u.to_text(full_quote=True), lambda u: URL(u),
+             lambda u: [u.navigate(r).to_text() for r in HISTORY_REFS], lambda u: u.navigate(URL('x/../y')),
+             lambda u: u.normalize(), lambda u: u.to_text(),
+             lambda u: URL.from_parts(scheme=u.scheme, host=u.host, path_parts=u.path_parts).to_text(),
+             lambda u: _scramble(u.navigate('k')), lambda u: _scramble(u))
+    try:
+        u = URL(text)
+    except Exception:
+        return
+    for step in steps:
+        try:
+            step(u)
+        except Exception:
+            pass
+
+
+def apply_history(URL, kind, scheme):
+    """The process-wide part of a history (the per-case part is in eval_after_history)."""
+    fill = lambda texts: [x.replace('{s}', scheme) for x in texts]
+    if kind == 'authority-siblings':
+        texts = fill(HISTORY_AUTHORITY_SIBLINGS)
+    elif kind == 'authority-less-siblings':
+        texts = fill(HISTORY_AUTHORITY_LESS_SIBLINGS)
+    elif kind == 'mixed-siblings':
+        texts = fill(HISTORY_AUTHORITY_LESS_SIBLINGS[:4] + HISTORY_AUTHORITY_SIBLINGS + HISTORY_AUTHORITY_LESS_SIBLINGS[4:])
+    elif kind == 'other-schemes':
+        texts = list(HISTORY_OTHER_SCHEMES)
+        from boltons import urlutils
+        reg = getattr(urlutils, 'register_scheme', None)
+        if reg is not None:            # schemes nobody else uses are registered (worker processes are reused: new names)
+            for uses_netloc, port in ((True, 99), (True, None), (False, None), (None, None)):
+                _REG_COUNT[0] += 1
+                name = 'zreg' + ''.join(chr(ord('a') + int(d)) for d in str(_REG_COUNT[0]))
+                try:
+                    reg(name, uses_netloc=uses_netloc, default_port=port)
+                except Exception:
+                    pass
+                texts += [name + '://h/p', name + ':/p', name + ':p']
+    elif kind == 'failed-calls':
+        texts = []
+        for bad in fill(HISTORY_FAILING):
+            for call in (lambda: URL(bad), lambda: URL(scheme + '://h/p/q').navigate(bad),
+                         lambda: URL(scheme + ':/p/q').navigate(bad), lambda: URL('http://a/b').navigate(bad),
+                         lambda: URL(scheme + '://h/p').navigate(None), lambda: URL(scheme + ':/p').navigate(7),
+                         lambda: URL.from_parts(scheme=scheme, host='h', path_parts=None),
+                         lambda: URL.from_parts(scheme=scheme, path_parts=('', 'p'), query_params=7)):
+                try:
+                    call()
+                except Exception:
+                    pass
+    else:
+        texts = []
+    for text in texts:
+        _use(URL, text)
+
+
+def _same_case_before(URL, bi, ref, scheme):
+    """The very same resolution (and its neighbours) has been done before and the caller changed what it got."""
+    sib = (scheme + '://other:99/p/q/r') if bi.split[1] else (scheme + ':/p/q/r')
+    def with_object():
+        d = URL(ref)
+        r = URL(bi.text).navigate(d)
+        _scramble(r)
+        _scramble(d)
+
+    for call in (lambda: _scramble(URL(bi.text).navigate(ref)), with_object,
+                 lambda: _scramble(URL(sib).navigate(ref)),
+                 lambda: _scramble(URL(bi.text).navigate('zz/../../q?zz#zz')),
+                 lambda: _scramble(URL(bi.text))):
+        try:
+            call()
+        except Exception:
+            pass
+
+
+def _after(res, kind):
+    if kind == 'none':
+        return res
+    return [(sig.replace('|fn:', '|fn:after-history:', 1), exp, obs, list(tags) + ['after_history'])
+            for sig, exp, obs, tags in res]
+
+
+class _ReusedBase:
+    """Stands for the URL class; hands out one and the same, already used object whenever the base text is parsed."""
+
+    def __init__(self, URL, text):
+        self._URL, self._text, self._shared = URL, text, URL(text)
+        for r in HISTORY_REFS:
+            for dest in (lambda: r, lambda: URL(r)):
+                try:
+                    self._shared.navigate(dest()).to_text()
+                except Exception:
+                    pass
+
+    def __call__(self, *args, **kwargs):
+        if args == (self._text,) and not kwargs:
+            return self._shared
+        return self._URL(*args, **kwargs)
+
+    def __getattr__(self, name):
+        return getattr(self._URL, name)
+
+
+def eval_after_history(URL, bi, refs, kind, scheme, per_case_only=False, with_case=True):
+    """A navigate / chain case as the last step of a history.  The oracle is the one of the fresh state (the RFC
+    target): signatures are renamed so that they stand apart from those of the same case without a history."""
+    if not per_case_only:
+        apply_history(URL, kind, scheme)
+    if kind == 'same-case-before':
+        for r in refs or ():
+            _same_case_before(URL, bi, r, scheme)
+    if kind == 'base-object-reused' and refs is not None:
+        # navigate() leaves the base unmodified, so a base object that has been navigated from resolves like a new one
+        try:
+            URL = _ReusedBase(URL, bi.text)
+        except Exception:
+            pass
+    if refs is None:
+        res = eval_normalize(URL, bi, with_case)       # bi: the text
+    else:
+        res = eval_navigate(URL, bi, refs[0]) if len(refs) == 1 else _chain_fresh(URL, bi, refs[0], refs[1])
+    return _after(res, kind)
+
+
+def shard_history(arg, t, g):
+    URL = _url()
+    kind, scheme, part = arg['history'], arg['scheme'], arg['part']
+    base = arg['base'].replace('{s}', scheme)
+    case0 = {'part': part, 'base': base, 'refs': [''], 'history': kind, 'scheme': scheme}
+    g.call(case0, apply_history, URL, kind, scheme)
+
+    def info(text):
+        try:
+            return _base_info(g, URL, part, text)
+        except Exception as e:         # a base of the stated space that cannot even be parsed / inspected
+            t.count(nontrivial=False)
+            t.bad('C07|fn:after-history:URL|raised', dict(case0, base=text), 'a URL object',
+                  'raised %s' % type(e).__name__, tags=['after_history'])
+            return None
+
+    bi = info(base)
+    if bi is None:
+        return
+
+    def one(b, refs, nontrivial):
+        case = {'part': part, 'base': b.text, 'refs': refs, 'history': kind, 'scheme': scheme}
+        t.count(nontrivial=nontrivial, sample=case if len(t.samples) < 2 else None)
+        _record(t, case, g.call(case, eval_after_history, URL, b, refs, kind, scheme, True))
+
+    for rkind in ('abs', 'rel'):
+        for path in ref_paths(rkind, SEGMENTS, arg['maxseg']):
+            for q in (None, 'y'):
+                for f in FRAGMENTS:
+                    ref = make_ref(path, q, f)
+                    if arg['hostless'] and hostless_skip(bi.split, split_uri(ref)):
+                        t.add('skipped_hostless_rooted_or_two_slashes')
+                        continue
+                    one(bi, [ref], path_is_nontrivial(path))
+    for r1, r2 in (('g/', '../h'), ('', '#s'), ('/x/y', 'z?y'), ('g', '?y')):
+        s1 = split_uri(r1)
+        if arg['hostless'] and (hostless_skip(bi.split, s1) or hostless_skip(expected_target(bi.split, s1), split_uri(r2))):
+            continue
+        one(bi, [r1, r2], True)
+    # references with their own scheme and host, of the scheme the history is about, from bases of another scheme
+    for other in ('http://a/b/c?q', 'zq://h/p') if arg['absolute'] else ():
+        obi = info(other)
+        for tail in ('://k', '://k/', '://k/x/../y?y#s', '://u@k:81/x/./y/..') if obi is not None else ():
+            one(obi, [bi.split[0] + tail], True)
+    # normalize() twice == once, for the victim and a dotted sibling
+    for text in (bi.text, bi.text.split('?')[0].split('#')[0].rstrip('/') + '/x/../y/./'):
+        for with_case in (True, False):
+            case = {'part': part, 'url': text, 'with_case': with_case, 'history': kind, 'scheme': scheme}
+            t.count(nontrivial=True)
+            _record(t, case, g.call(case, eval_after_history, URL, text, None, kind, scheme, True, with_case))
+
+
+def history_args(maxseg):
+    args = []
+    for hi, kind in enumerate(HISTORY_KINDS):
+        for vi, (victim, hostless) in enumerate(HISTORY_CUSTOM_VICTIMS):
+            scheme = 'h' + chr(ord('a') + hi) + chr(ord('a') + vi)
+            args.append({'part': 'navigate-history', 'history': kind, 'scheme': scheme, 'base': victim,
+                         'hostless': hostless, 'maxseg': maxseg, 'absolute': True})
+        for victim, hostless in HISTORY_REGISTERED_VICTIMS:
+            if kind == 'none':
+                continue               # these very cases without a history are in the other parts
+            args.append({'part': 'navigate-history', 'history': kind, 'scheme': victim.split(':')[0], 'base': victim,
+                         'hostless': hostless, 'maxseg': maxseg,
+                         'absolute': not hostless})    # "urn://k": a scheme registered as having no authority
+
+    return args
+
+
+# ----------------------------------------------------------------------------------------------------
 
 def bounds(tier):
     if tier == 'quick':
@@ -1081,12 +1310,12 @@ def bounds(tier):
                 'object_maxseg': 2, 'absolute_object_maxseg': 1, 'encoded_maxseg': 3, 'reserved_maxseg': 2,
                 'encoded_deep_bases': 9,
                 'chain_bases': 4, 'chain_second': 'path x {"", "?y#s"}', 'normalize_maxseg': 4,
-                'hostless_maxseg': 3, 'pct_maxseg': 2}
+                'hostless_maxseg': 3, 'pct_maxseg': 2, 'history_maxseg': 2}
     return {'navigate_maxseg': 5, 'names_maxseg': 4, 'absolute_maxseg': 3, 'chain_maxseg': 2,
             'object_maxseg': 3, 'absolute_object_maxseg': 2, 'encoded_maxseg': 4, 'reserved_maxseg': 3,
             'encoded_deep_bases': len(ENC_BASES),
             'chain_bases': len(CHAIN_BASES), 'chain_second': 'path x {"", "?y"} x {"", "#s"}', 'normalize_maxseg': 6,
-            'hostless_maxseg': 5, 'pct_maxseg': 3}
+            'hostless_maxseg': 5, 'pct_maxseg': 3, 'history_maxseg': 3}
 
 
 def run(ctx):
@@ -1165,6 +1394,10 @@ def run(ctx):
     args = [{'part': 'navigate-long', 'n': n} for n in LONG_SIZES]
     inputs.run_shards(ctx, _guarded(shard_long), args, part='navigate-long', rule=rule)
 
+    # every case as the last step of a history of other URLs handled by the same process
+    args = history_args(b['history_maxseg'])
+    inputs.run_shards(ctx, _guarded(shard_history), args, part='navigate-history', rule=rule)
+
     args = [{'part': 'absolute', 'base': base, 'maxseg': b['absolute_maxseg'],
              'object_maxseg': b['absolute_object_maxseg']} for base in ABS_BASES]
     inputs.run_shards(ctx, _guarded(shard_absolute), args, part='absolute', rule=rule)
@@ -1224,7 +1457,11 @@ def run(ctx):
                          chain_pct_segments=list(CHAIN_PCT_SEGMENTS),
                          query_keys=list(QUERY_KEYS), query_values=['<no "=">' if v is None else v for v in QUERY_VALUES],
                          encoded_queries=len(eq), query_ref_bases=list(QUERY_REF_BASES),
-                         query_base='http://a/b/c?<query>[#f]', self_bases=len(sb))
+                         query_base='http://a/b/c?<query>[#f]', self_bases=len(sb),
+                         history_kinds=list(HISTORY_KINDS),
+                         history_victims=[v for v, _ in HISTORY_CUSTOM_VICTIMS + HISTORY_REGISTERED_VICTIMS],
+                         history_siblings=list(HISTORY_AUTHORITY_SIBLINGS + HISTORY_AUTHORITY_LESS_SIBLINGS
+                                               + HISTORY_OTHER_SCHEMES + HISTORY_FAILING))
     cov['directed_parts'] = {'navigate-long': 'not exhaustive in any sense beyond its own list: %d reference patterns '
                              'of n..5n segments per base, n in long_sizes' % len(long_refs(1))}
     ctx.assumptions += [
@@ -1269,6 +1506,10 @@ def run(ctx):
         'chained navigation: the reference is applied step by step, each intermediate result normalized as the '
         'single-step property demands; the chain menu has no empty "?" query',
         'a URL object given as destination is compared with navigating to that object\'s own text',
+        'navigate-history: a resolution does not depend on which URLs the process handled before (the statement speaks '
+        'of base and reference only): the cases are evaluated after the enumerated histories and must give the RFC target.  '
+        'Victim bases with an empty authority of an unregistered scheme ("foo:///a/b") are not explored (such texts are '
+        'used as history only); histories are single lists of sibling texts, not every subset / order of them; no threads',
         'URL objects in other internal states (reference after normalize(), as the outcome of URL("").navigate(ref), '
         'as a copy URL(URL(ref)); base after normalize()) are explored for references of <= object_maxseg segments; '
         'such an object stands for the reference it renders to, and is only used when that text parses back to an '
@@ -1295,6 +1536,11 @@ def _replay(ctx, data, case):
     part = case.get('part')
     if part == 'normalize':
         res = eval_normalize(URL, case['url'], case['with_case'])
+    elif 'history' in case:
+        if 'url' in case:
+            res = eval_after_history(URL, case['url'], None, case['history'], case['scheme'], False, case['with_case'])
+        else:
+            res = eval_after_history(URL, BaseInfo(URL, case['base']), case['refs'], case['history'], case['scheme'])
     else:
         bi = BaseInfo(URL, case['base'])
         refs = case['refs']
